@@ -1069,12 +1069,7 @@ func exec(c px.Context, op string, args []sx.Sexp) core.Result {
 	}
 	text, isT := isText(out)
 	if isT && strings.Contains(text, "%!") && !hasPercent(ve) && !sepHasPercent(fc.m) {
-		cls := "go-fmt-leak"
-		if d.width/10 > 1000000 || d.prec/10 > 1000000 {
-			// fmt's parsenum gives up on numbers beyond 10^6 (known finding C20-fmt-number-limit)
-			cls = "go-fmt-number-limit"
-		}
-		return fail(cls, fmt.Sprintf("%s: a Go fmt error marker in the output: %q", d.raw, text))
+		return fail("go-fmt-leak", fmt.Sprintf("%s: a Go fmt error marker in the output: %q", d.raw, text))
 	}
 
 	if isContainerTag(tag) {
@@ -1149,6 +1144,17 @@ func exec(c px.Context, op string, args []sx.Sexp) core.Result {
 			back, ok := readRadix(text, d.letter)
 			if !ok || back != i {
 				return fail("radix-roundtrip", fmt.Sprintf("%s of %d renders %q which does not read back (got %d, %v)", d.raw, i, text, back, ok))
+			}
+		}
+	}
+	if tag == "f" && d.width < 0 && !d.plus && !d.space && fc.mode != "map" &&
+		(strings.IndexByte("eEfgG", d.letter) >= 0 || (strings.IndexByte("ps", d.letter) >= 0 && d.prec < 0 && !d.sharp)) {
+		// the text of a negative float is the sign and the text of its magnitude (digits are restored independently of the sign)
+		if fl := v.(px.Float).Float(); fl > 0 {
+			neg := types.WrapFloat(-fl)
+			nout := renderTop(c, &fctx{mode: "kind", top: fc.top, m: []entry{{key: "float", typ: keyType("float"), n: fc.top}}}, "f", neg)
+			if ntext, ok := isText(nout); ok && fc.top != nil && ntext != "-"+text {
+				return fail("float-sign-digits", fmt.Sprintf("%s: %v renders %q but %v renders %q", d.raw, fl, text, -fl, ntext))
 			}
 		}
 	}
